@@ -41,8 +41,11 @@ C04CloseItems == { F(1, 1, <<97>>), F(8, 1, <<3, 232>>), F(8, 1, <<3, 237>>), F(
 C05Items == { F(1, 0, Euro1), F(0, 1, Euro2), F(0, 0, <<255>>), F(0, 0, <<172, 97>>), F(1, 1, <<97>>), F(1, 0, <<>>), F(0, 1, <<>>),
               F(9, 1, <<>>), F(1, 1, <<237, 160, 128>>), F(8, 1, <<3, 232, 255>>), F(8, 1, <<3, 232, 226, 130, 172>>) }
 
+C04FragItems == { F(2, 0, <<1>>), F(1, 0, <<97>>), F(0, 1, <<2>>), F(0, 0, <<>>), F(9, 1, <<7>>), F(10, 1, <<>>), F(1, 1, <<98>>), F(2, 1, <<>>) }
+
 \* ---- C08 / C14 / C09 / C13 -------------------------------------------------------------------------
-C08Items == { F(1, 1, <<97>>), F(2, 0, <<1>>), F(0, 1, <<2>>), F(9, 1, <<7>>), F(8, 1, <<3, 232, 114>>), F(8, 1, <<>>), F(8, 1, <<15, 160>>) }
+Reason123 == [i \in 1..123 |-> 97 + (i % 26)]
+C08Items == { F(8, 1, <<3, 232>> \o Reason123), F(1, 1, <<97>>), F(2, 0, <<1>>), F(0, 1, <<2>>), F(9, 1, <<7>>), F(8, 1, <<3, 232, 114>>), F(8, 1, <<>>), F(8, 1, <<15, 160>>) }
 C14Items == { F(9, 1, <<>>), F(9, 1, <<1>>), FB(9, 1, 125, 1), F(1, 0, <<97>>), F(0, 1, <<98>>), F(2, 1, <<3>>), F(8, 1, <<3, 232>>) }
 C09Items == { F(1, 1, <<97>>), F(2, 0, <<1>>), F(0, 1, <<2>>), F(9, 1, <<7>>), F(8, 1, <<3, 232>>), Part }
 C13Items == { F(1, 1, <<97>>), F(2, 1, <<1>>), F(9, 1, <<7>>), F(10, 1, <<>>), F(8, 1, <<3, 232>>), F(3, 1, <<>>) }
